@@ -882,6 +882,15 @@ fn gen_logical(rng: &mut Rng, prop: &str, nrows: usize) -> Vec<(String, Vec<Cell
     let s2class = if spicy() { ColClass::StrHighCard } else { ColClass::StrUnicode };
     let np = if spicy() { *rng.pick(&[NullPattern::None, NullPattern::Some]) } else { NullPattern::None };
     cols.push(("s2".into(), gen_cells(rng, s2class, np, nrows, 0)));
+    if matches!(prop, "C02" | "C04") {
+        // x: integer-typed in the first part of the table, float-typed in the rest, with NULLs: the
+        // partitions of one column differ in type, partial aggregates are merged across the types
+        let seg = 1 + rng.below(nrows as u64) as usize;
+        let np = *rng.pick(&[NullPattern::Some, NullPattern::Most, NullPattern::Alternating]);
+        let mut x = gen_cells(rng, ColClass::IntU8, np, seg.min(nrows), 0);
+        x.extend(gen_cells(rng, ColClass::FloatDyadic, np, nrows - seg.min(nrows), seg as u64));
+        cols.push(("x".into(), x));
+    }
     if !spicy() {
         // Mild plans: no request may carry a column that is entirely NULL (a partition in which a
         // column has type Null trips open findings of the query engine): every third row holds a
@@ -891,7 +900,7 @@ fn gen_logical(rng: &mut Rng, prop: &str, nrows: usize) -> Vec<(String, Vec<Cell
                 continue;
             }
             let donor = cells.iter().find(|c| !c.is_null()).cloned().unwrap_or(match name.as_str() {
-                "f1" => Cell::f(0.5),
+                "f1" | "x" => Cell::f(0.5),
                 "s1" | "s2" => Cell::S("k0".into()),
                 _ => Cell::I(7),
             });
